@@ -218,7 +218,9 @@ def available_pieces(cx, loaded=None):
                 own = cx.export_rel + tuple(t.rel_target(f))
                 found = False
                 for rel, data, in_scan, in_export in cand_by_len.get(f.length, []):
-                    stable = (in_scan and not in_export) or rel == own
+                    # never written by the run: scan files outside the export directory, files inside it that are not the
+                    # export location of any loaded torrent's file (C03), and the segment's own export file (C01)
+                    stable = (in_scan and (not in_export or rel not in cx.targets)) or rel == own
                     if stable and data[off:off + ln] == f.content[off:off + ln]:
                         found = True
                         break
